@@ -31,7 +31,12 @@ func init() {
 			{ID: "C09-R1", Title: "exactly one answer per requested id, built from that id", Decides: "each requested id is answered exactly once and in order", Floor: 2, Run: c09r1},
 			{ID: "C09-R2", Title: "value or fresh status per answer", Decides: "answered with a value or an error status", Floor: 2, Run: c09r2},
 			{ID: "C09-R3", Title: "status completeness on the multi-status path; no lost write to a range copy", Decides: "a multi-status answer carries a status for every entry", Floor: 2, Run: c09r3},
-			{ID: "C09-R4", Title: "untransformed pass-through between JSON and the characteristic API; member names", Decides: "what is set is what is read and vice versa", Floor: 8, Run: func(c *core.Ctx) { c09r4(c); passThrough(c, "C09"); callbackArgumentOrder(c) }},
+			{ID: "C09-R4", Title: "untransformed pass-through between JSON and the characteristic API; member names", Decides: "what is set is what is read and vice versa", Floor: 8, Run: func(c *core.Ctx) {
+				c09r4(c)
+				passThrough(c, "C09")
+				callbackArgumentOrder(c)
+				returnsUndecorated(c, "C09")
+			}},
 			{ID: "C09-R5", Title: "contiguous chunking; bodies go through the chunked writer", Decides: "fidelity after HTTP chunking and encryption for responses of any size", Floor: 4, Run: c09r5},
 			{ID: "C09-R7", Title: "polarity of the handler's decisions (id parsing, found/missing, 207/204, subscribe/unsubscribe, chunk clamp)", Decides: "each id is answered with its own value or status; correct status codes", Floor: 10, Run: c09r7},
 			{ID: "C09-R6", Title: "handlers encode live state of every accessory the application added; request bodies reach the decoder unbounded", Decides: "what the application sets is what /accessories shows; large written values arrive", Floor: 4, Run: func(c *core.Ctx) {
